@@ -194,4 +194,14 @@ PROPS = {
                    "c15:saw/self-recursive", "c15:saw/nested-type", "c15:saw/list-rules/oneof", "c15:saw/list-rules/any", "c15:saw/list-rules/enum", "c15:saw/key-entity", "c15:saw/flatten"],
         "assumptions": COMMON_ASSUMPTIONS,
     },
+    "C16": {
+        "shards": 16,
+        "level_text": "j5s bundles (the isolation matrix; one service per scalar type with that type in path, query, body and response position; API-shaped bundles of one or two packages with services over every verb and 0-2 path parameters of varying type and position, methods without response, list methods over items that carry every list rule and are self-, array-, mutually or oneof-recursive, topics and 1-2 random entities; random bundles) are compiled and pushed through the entry points `j5 verify` / `j5 schema` / buildlib use: structure.APIFromImage, j5client.APIFromSource, structure.ResolveProse, j5codec ProtoToJSON of the source and the client API, export.BuildSwagger + json.Marshal, export.FromProto + json.Marshal. Each stage runs under recover; a stage error or panic is a violation naming the stage; every rendering is parsed by the harness's own strict JSON parser; a fatal stack overflow kills the worker and is attributed by the driver through the journal. The client API is then compared with the declaration: services and methods (names, order), verb, path, path parameters naming request properties, query/body split by verb, response presence and fields, entities listed with their command services, every reference anywhere in the client API resolving to a schema the client API holds, and every client method present as an operation in the OpenAPI document.",
+        "level_note": "List-request contents (which fields the client lists as filterable/sortable/searchable) are recorded as coverage only: the property does not state them.",
+        "rule": "one evaluation per bundle that compiles; non-trivial when the bundle declares a service, topic or entity; distinct by hash of the sources.",
+        "floors": ["c16:isolation", "c16:positions", "c16:path-positions", "c16:list-methods", "c16:api", "c16:random-bundle", "c16:entity", "c16:split/query", "c16:split/body",
+                   "c16:no-response-body", "c16:list-request", "c16:list-request/filterable", "c16:list-request/sortable", "c16:list-request/searchable", "c16:path-params/1", "c16:path-params/2",
+                   "c16:path-type/key", "c16:path-type/string", "c16:path-type/integer", "c16:query-type/date", "c16:body-type/decimal", "c16:response-type/timestamp"],
+        "assumptions": COMMON_ASSUMPTIONS,
+    },
 }
